@@ -204,9 +204,17 @@ type Hit struct {
 	Rule  string
 	Props []string
 	Text  string
+	// Sub: the subscription the hit is about ("" if none)
+	Sub string
 }
 
 func (h Hit) String() string { return fmt.Sprintf("%s %v: %s", h.Rule, h.Props, h.Text) }
+
+func hitOn(sub, rule string, props []string, f string, a ...any) Hit {
+	h := hit(rule, props, f, a...)
+	h.Sub = sub
+	return h
+}
 
 func hit(rule string, props []string, f string, a ...any) Hit {
 	return Hit{Rule: rule, Props: props, Text: fmt.Sprintf(f, a...)}
@@ -474,7 +482,55 @@ func (m *Model) Apply(c Call, o Obs) []Hit {
 	if o.Rows != nil {
 		hits = append(hits, m.checkRows(o, call)...)
 	}
+	for i := range hits {
+		hits[i].Props = m.owners(hits[i], c.Op)
+	}
 	return hits
+}
+
+// owners widens the ownership of a hit by WHAT CAUSED it: a delivery that
+// changes because of an operation on another subscription is also an
+// independence violation (C02); one that changes because of a seek, an
+// ack/nack/modify-deadline or a maintenance job is also a violation of the
+// property that says those operations have no such side effect.
+func (m *Model) owners(h Hit, op Op) []string {
+	if len(h.Props) == 0 {
+		return h.Props
+	}
+	props := append([]string{}, h.Props...)
+	add := func(p string) {
+		for _, x := range props {
+			if x == p {
+				return
+			}
+		}
+		props = append(props, p)
+	}
+	switch op.K {
+	case "seekT", "seekS", "snap":
+		add("C13")
+	case "job":
+		add("C15")
+	case "ack", "modack", "nack", "acknack":
+		if h.Rule != "ack-failed" && (h.Sub == "" || h.Sub != op.Sub || strings.HasPrefix(h.Rule, "row-")) {
+			add("C03")
+		}
+	case "sweepDL":
+		add("C06")
+	}
+	if h.Sub != "" && op.Sub != "" && h.Sub != op.Sub {
+		add("C02")
+	}
+	// anything wrong on a subscriber of a dead-letter topic concerns forwarding
+	if s := m.Subs[h.Sub]; s != nil {
+		for _, o := range m.Subs {
+			if m.hasDL(o) && o.Cfg.DLTopic == s.Cfg.Topic {
+				add("C06")
+				break
+			}
+		}
+	}
+	return props
 }
 
 func (m *Model) liveTopic(short string) *Topic {
@@ -731,6 +787,14 @@ func (m *Model) findDel(s *Sub, rm RecvMsg) int {
 func (m *Model) touch(s *Sub, call Iv) { s.Activity = call }
 
 func (m *Model) applyPull(c Call, o Obs) []Hit {
+	hits := m.applyPull1(c, o)
+	for i := range hits {
+		hits[i].Sub = c.Op.Sub
+	}
+	return hits
+}
+
+func (m *Model) applyPull1(c Call, o Obs) []Hit {
 	s := m.liveSub(c.Op.Sub)
 	if s == nil {
 		if o.Err != "NotFound" {
@@ -1276,6 +1340,7 @@ func (m *Model) applyJob(c Call, o Obs) []Hit {
 // holds acknowledged must not have become live again.
 func (m *Model) checkRows(o Obs, call Iv) []Hit {
 	var hits []Hit
+	defer func() {}()
 	if o.LiveTopics != nil {
 		for n, t := range m.Topics {
 			c := o.LiveTopics[TopicPath(n)]
@@ -1310,9 +1375,9 @@ func (m *Model) checkRows(o Obs, call Iv) []Hit {
 					continue
 				}
 				if !ok {
-					hits = append(hits, hit("row-lost", append(pC01, "C15"), "delivery %s of message %s on %s is outstanding but its row is gone", d.AckID, m.Msgs[d.Msg].ID, n))
+					hits = append(hits, hitOn(n, "row-lost", append(pC01, "C15"), "delivery %s of message %s on %s is outstanding but its row is gone", d.AckID, m.Msgs[d.Msg].ID, n))
 				} else if r.Done {
-					hits = append(hits, hit("row-completed", pC01, "delivery %s of message %s on %s is outstanding (not acked, not expired, not dead-lettered) but its row is completed", d.AckID, m.Msgs[d.Msg].ID, n))
+					hits = append(hits, hitOn(n, "row-completed", pC01, "delivery %s of message %s on %s is outstanding (not acked, not expired, not dead-lettered) but its row is completed", d.AckID, m.Msgs[d.Msg].ID, n))
 				}
 			case Acked, DeadLettered:
 				if ok && !r.Done {
@@ -1320,14 +1385,52 @@ func (m *Model) checkRows(o Obs, call Iv) []Hit {
 					if d.State == DeadLettered {
 						p = pC06
 					}
-					hits = append(hits, hit("row-resurrected", p, "delivery %s of message %s on %s was %s but its row is live again", d.AckID, m.Msgs[d.Msg].ID, n, d.State))
+					hits = append(hits, hitOn(n, "row-resurrected", p, "delivery %s of message %s on %s was %s but its row is live again", d.AckID, m.Msgs[d.Msg].ID, n, d.State))
 				}
 			}
 		}
 		for mi, k := range need {
 			// never-delivered deliveries are identified by (subscription, message)
 			if have := o.LiveBySubMsg[SubPath(n)+"|"+m.Msgs[mi].ID]; have < k {
-				hits = append(hits, hit("row-missing", append(pC01, "C15"), "message %s is owed to %s (%d undelivered deliveries) but only %d live delivery rows exist", m.Msgs[mi].ID, n, k, have))
+				hits = append(hits, hitOn(n, "row-missing", append(pC01, "C15"), "message %s is owed to %s (%d undelivered deliveries) but only %d live delivery rows exist", m.Msgs[mi].ID, n, k, have))
+			}
+		}
+		// the converse: live delivery rows the model knows nothing about (a message
+		// enqueued on a subscription it is not owed to, or enqueued twice)
+		if s.Live && o.LiveBySubMsg != nil {
+			allowed := map[string]int{}
+			open := false
+			for _, d := range s.Dels {
+				switch d.State {
+				case Outstanding, Unknown:
+					allowed[m.Msgs[d.Msg].ID]++
+				default:
+					if d.MaybePruned {
+						open = true
+					}
+				}
+			}
+			_ = open
+			prefix := SubPath(n) + "|"
+			for k, have := range o.LiveBySubMsg {
+				if !strings.HasPrefix(k, prefix) {
+					continue
+				}
+				id := strings.TrimPrefix(k, prefix)
+				if have > allowed[id] {
+					props := append([]string{}, pC02...)
+					if _, known := m.MsgIdx[id]; known {
+						for _, d := range s.Dels {
+							if m.Msgs[d.Msg].ID == id && d.State == Acked {
+								props = append(props, "C03")
+							}
+							if m.Msgs[d.Msg].ID == id && d.State == DeadLettered {
+								props = append(props, "C06")
+							}
+						}
+					}
+					hits = append(hits, hitOn(n, "row-unexpected", props, "%d live delivery rows of message %s on %s, the model allows %d (not owed, already retired, or enqueued twice)", have, id, n, allowed[id]))
+				}
 			}
 		}
 	}
